@@ -329,6 +329,15 @@ func (v *c01Shape) VisitIsEmptySetExprNodeStart(n *ast.IsEmptySetExprNode) {
 }
 func (v *c01Shape) VisitIsEmptySetExprNodeEnd(*ast.IsEmptySetExprNode) { v.close() }
 
+// a sort field of a sub-query: its typed symbol node has just been rendered; add the direction
+func (v *c01Shape) VisitSortFieldNode(n *ast.SortFieldNode) {
+	if n.IsAscending() {
+		v.leaf("asc")
+	} else {
+		v.leaf("desc")
+	}
+}
+
 func c01ShapeOf(q ast.Query) string {
 	v := &c01Shape{}
 	q.GetPredicate().Accept(v)
